@@ -79,7 +79,8 @@ func runC08(tier string, seed uint64, o *Out) error {
 		c.late = []int64{0, 0, c.slide, 3 * c.size}[rng.Intn(4)] // late rows re-deliver open fired intervals
 		n := 5 + rng.Intn(36)
 		unit, farOK := pickTsCarrier(rng)
-		ops := genTimeOps(rng, c.slide, c.ooo, n, nil, farOK && rng.Intn(5) == 0)
+		far := farOK && rng.Intn(5) == 0
+		ops := genTimeOps(rng, c.slide, c.ooo, n, nil, far)
 		if i%25 == 3 {
 			ops = overflowThenQuiet(rng, c.slide, nil)
 		}
@@ -87,6 +88,10 @@ func runC08(tier string, seed uint64, o *Out) error {
 		tag := fmt.Sprintf("size=%d slide=%d", c.size, c.slide)
 		if tsCarrier.kind != 0 || unit != 1 {
 			tag = fmt.Sprintf("timestamp carried as kind %d unit %d", tsCarrier.kind, unit)
+		}
+		if !far && unit != 1 && rng.Intn(3) > 0 {
+			shiftOps(ops, epochBase(c.slide*unit))
+			tag += ", present-day epoch"
 		}
 		err := slidingLine(o, "C08", swCfg{c.size * unit, c.slide * unit, c.ooo * unit, c.late * unit}, ops, tag)
 		resetTsCarrier()
